@@ -41,6 +41,12 @@ def run_family(run, leg):
     for sname in (["SIR", "MIX"] if run.tier == "quick" else gen_seed_names()):
         _, d = gen.seed(gen.seed_values(sname))
         cy.append(("cython:" + sname, d, run.seed, (leg,), "cython"))
+    # the same definitions reached from a non-initial state (built without the last process, everything evaluated, last
+    # process added): every definition in the thorough tier, every fourth (selected by VERIF_SEED) in the quick tier
+    from mc import build
+    grow = [(n + "+grown", d, run.seed, (leg,), "grown") for k, (n, d) in enumerate(defs)
+            if build.can_grow(d) and (run.tier != "quick" or k % 4 == run.seed % 4)]
+    jobs = jobs + grow
     res = pool.pmap(e1.check_def, cy + jobs, chunksize=1)
     nd = 0
     checks = 0
